@@ -26,7 +26,8 @@ import tempfile
 from vlib.core import Acc
 from vlib import yamltext as yt
 
-VALUE_KINDS = ["int", "str", "list", "map", "eager", "lazy", "typed", "eagerseq", "bareitem"]
+VALUE_KINDS = ["int", "str", "list", "map", "eager", "lazy", "typed", "eagerseq", "bareitem",
+               "omap", "set", "misc"]
 HEAD_FORMS = ["tagmap", "tagseq", "bare", "typemap"]
 TAIL_FORMS = HEAD_FORMS + ["typeargs"]
 KEYS = ["k", "m"]
@@ -67,6 +68,15 @@ def value_py(kind, form=None):
         return vp.VItemE([10, [20]], {"d": {"e": 1}}, 30)
     if kind == "bareitem":
         return vp.VItemL()
+    if kind == "omap":
+        # YAML's ordered mapping: a list of (key, value) tuples
+        return [("a", 1), ("b", [2, ("c", 3)][:1])]
+    if kind == "set":
+        return {"x", "y"}
+    if kind == "misc":
+        import datetime
+
+        return [None, True, 1.5, float("inf"), b"hi", datetime.date(2020, 1, 2), ""]
     raise ValueError(kind)
 
 
@@ -84,6 +94,17 @@ def value_node(kind, flow):
                       tag="!VItemE", flow=flow)
     if kind == "bareitem":
         return yt.scalar("", tag="!VItemL")
+    if kind == "omap":
+        return yt.seq([yt.mapping([("a", yt.py(1))], flow=flow),
+                       yt.mapping([("b", yt.py([2], flow))], flow=flow)],
+                      tag="!!omap", flow=flow)
+    if kind == "set":
+        return yt.mapping([("x", yt.scalar("null")), ("y", yt.scalar("null"))],
+                          tag="!!set", flow=flow)
+    if kind == "misc":
+        return yt.seq([yt.scalar("~"), yt.scalar("true"), yt.scalar("1.5"), yt.scalar(".inf"),
+                       yt.scalar("aGk=", tag="!!binary"), yt.scalar("2020-01-02"),
+                       yt.scalar('""')], flow=flow)
     if kind == "typed":
         return yt.mapping([("__type__", yt.scalar("verif_plugins.VItemL")),
                            ("c", yt.py([3], flow))], flow=flow)
@@ -103,6 +124,12 @@ def norm(value):
         return ["list", [norm(v) for v in value]]
     if isinstance(value, tuple):
         return ["tuple", [norm(v) for v in value]]
+    if isinstance(value, (set, frozenset)):
+        return [type(value).__name__, sorted(norm(v) for v in value)]
+    if type(value) is bytes:
+        return ["bytes", value.decode("latin-1")]
+    if type(value).__name__ in ("date", "datetime"):
+        return [type(value).__name__, value.isoformat()]
     if value is None or type(value) in (bool, int, float, str):
         return [type(value).__name__, value]
     return ["other", type(value).__name__]
@@ -566,6 +593,23 @@ def falsy_cases(size, parity, style):
                 yield case, BOTH
 
 
+def tail_target_cases(size, parity, style):
+    """The pool may have a parameter of any name - also one called ``target`` (the address
+    of a remote pool, say): for the last element it is a keyword like any other"""
+    for forms in itertools.product(HEAD_FORMS, repeat=size - 1):
+        for tail_form in ("tagmap", "typemap", "typeargs"):
+            for pattern in (0, 4, 9):
+                all_forms = tuple(forms) + (tail_form,)
+                arguments = [grid_element(form, 2 * pos, pattern)
+                             for pos, form in enumerate(all_forms)]
+                args, kwargs = arguments[-1]
+                kinds = list(kwargs.values()) or ["int"]
+                arguments[-1] = (args, {"target": kinds[0], "k": kinds[-1]})
+                case = make_case(all_forms, arguments, parity, style, None)
+                case["family"] = "tail-target-keyword"
+                yield case, BOTH
+
+
 def small_options(tail, max_arity):
     """Every (form, args, kwargs) of one element with arity 0..max_arity"""
     options = [("bare", (), {})]
@@ -605,6 +649,8 @@ def shard(args):
         cases = merge_cases(*args[1:])
     elif kind == "falsy":
         cases = falsy_cases(*args[1:])
+    elif kind == "tail-target":
+        cases = tail_target_cases(*args[1:])
     else:
         cases = small_cases(*args[1:])
     try:
@@ -655,6 +701,8 @@ def run(ctx):
             shards.append(("merge", size, parity, style))
         for size in (2, 3, 4):
             shards.append(("falsy", size, parity, style))
+        for size in (1, 2, 3):
+            shards.append(("tail-target", size, parity, style))
     ctx.pmap(shard, shards, chunksize=1)
     ctx.meta.update(
         rule="YAML documents with a pipeline of n elements: every assignment of the forms "
@@ -673,6 +721,7 @@ def run(ctx):
              "written through merge keys (inline mapping, list of mappings, anchor + "
              "aliases); for n in {2, 3, 4}: an element that is falsy once constructed at "
              "every position behind the head; "
+             "for n <= 3: the pool with a keyword item called target; "
              "non-trivial = at least two elements (something is linked); distinct by the "
              "full case"
              % (HEAD_FORMS, VALUE_KINDS, STYLES,
